@@ -40,7 +40,7 @@ func kernelJobs() []Job {
 	out = append(out, Job{Pkg: "geometry", Harness: "H_K_SegSeg", Timeout: 120, Scale: true, Contracts: []string{fnRaycast}, ForkIn: []string{fnSegSeg},
 		Note: "path-wise over IntersectsSegment, Raycast by contract"})
 	// direct end-to-end searches with everything inlined, on the integer lattice only
-	out = append(out, Job{Pkg: "geometry", Harness: "H_K_SegSegSym", Timeout: 120, LatticeOnly: 8, NoCover: true, Note: "inlined, lattice [-8,8] only"})
+	out = append(out, Job{Pkg: "geometry", Harness: "H_K_SegSegSym", Timeout: 45, LatticeOnly: 8, NoCover: true, Note: "inlined, lattice [-8,8] only"})
 	return out
 }
 
@@ -55,4 +55,40 @@ func init() {
 		Assumptions: commonAssumptions,
 	}
 	jobTables["C19"] = func(tier string) []Job { return kernelJobs() }
+}
+
+func init() {
+	propMeta["C18"] = PropMeta{
+		Bounds: map[string]interface{}{
+			"quick":    "rings of n = 3..8 distinct vertices, with and without repeated closing vertex; every rotation of the start vertex for n <= 6; series of 0..8 points open and closed for the segment rule; ALL real coordinates",
+			"thorough": "n = 3..12, every rotation for n <= 9; series of 0..12 points; ALL real coordinates",
+		},
+		Outside:     []string{"rings with more vertices than the bound", "coordinates outside the float-exact domain"},
+		Stubs:       []string{},
+		Assumptions: commonAssumptions,
+	}
+	jobTables["C18"] = func(tier string) []Job {
+		maxN, maxRot := 8, 6
+		if tier == "thorough" {
+			maxN, maxRot = 12, 9
+		}
+		var out []Job
+		for n := 3; n <= maxN; n++ {
+			for closing := 0; closing <= 1; closing++ {
+				out = append(out, Job{Pkg: "geometry", Harness: "H_Series_Flags", Params: []int{n, closing}, Timeout: 60, Scale: true})
+				if n <= maxRot {
+					for k := 1; k < n; k++ {
+						out = append(out, Job{Pkg: "geometry", Harness: "H_Series_Rotate", Params: []int{n, closing, k}, Timeout: 60, Scale: true, NoCover: k > 1})
+					}
+				}
+			}
+			out = append(out, Job{Pkg: "geometry", Harness: "H_Series_Closing", Params: []int{n}, Timeout: 60, Scale: true})
+		}
+		for n := 0; n <= maxN; n++ {
+			for closed := 0; closed <= 1; closed++ {
+				out = append(out, Job{Pkg: "geometry", Harness: "H_Series_Segments", Params: []int{n, closed}, Timeout: 60, Scale: true})
+			}
+		}
+		return out
+	}
 }
